@@ -1,6 +1,7 @@
 //! xlate: re-reads the yarel sources and emits facts.json + Lean tables.
 
 mod common;
+mod fnbody;
 mod gc;
 mod sites;
 mod tables;
@@ -87,7 +88,9 @@ fn run(src_dir: &Path, out_dir: &Path) -> R<()> {
     let messages = sites::messages(&srcs)?;
     let cfgs = sites::cfg_sites(&srcs)?;
 
+    let fnbodies = fnbody::translate(&srcs, &db, &limits)?;
     let mut lean_files: Vec<(String, String)> = Vec::new();
+    lean_files.push(("Fns.lean".to_string(), fnbodies.text.clone()));
     lean_files.push(gc.to_lean().finish());
     lean_files.push(opcodes.to_lean().finish());
     lean_files.push(rules.to_lean().finish());
@@ -114,6 +117,16 @@ fn run(src_dir: &Path, out_dir: &Path) -> R<()> {
         ("panic_sites", panics.to_json()),
         ("messages", messages.to_json()),
         ("cfg", cfgs.to_json()),
+        (
+            "fn_bodies",
+            jobj(vec![
+                ("translated", J::Arr(fnbodies.names.iter().map(|n| js(n.clone())).collect())),
+                (
+                    "untranslated",
+                    J::Arr(fnbodies.failed.iter().map(|(n, w)| jobj(vec![("fn", js(n.clone())), ("why", js(w.clone()))])).collect()),
+                ),
+            ]),
+        ),
     ]);
     let mut text = String::new();
     facts.write(&mut text, 0);
